@@ -17,6 +17,9 @@ def handle (line : String) : String :=
     | none =>
     match devOp op t with
     | some r => r
+    | none =>
+    match storeOp op t with
+    | some r => r
     | none => "bad-op"
 
 partial def loop (h : IO.FS.Stream) (out : IO.FS.Stream) : IO Unit := do
